@@ -475,6 +475,19 @@ def _set_attrpath_value(
         )
 
 
+def _remove_by_identity(values: list, binding: Binding) -> None:
+    """Drop exactly *binding* from *values*.
+
+    `list.remove` compares by equality: an emptied attrpath parent equals an
+    explicit `name = { };` binding of the same name and would take its place.
+    """
+    for index, item in enumerate(values):
+        if item is binding:
+            del values[index]
+            return
+    raise ValueError("binding is not a member of this set")
+
+
 def _remove_attrpath_value(target_set: AttributeSet, segments: list[str]) -> None:
     """Remove an attrpath-derived leaf binding and prune empty nodes."""
     stack = _walk_attrpath_stack(
@@ -482,7 +495,7 @@ def _remove_attrpath_value(target_set: AttributeSet, segments: list[str]) -> Non
     )
     assert stack is not None
     parent_set, leaf_binding = stack[-1]
-    parent_set.values.remove(leaf_binding)
+    _remove_by_identity(parent_set.values, leaf_binding)
     if target_set.attrpath_order:
         for index, item in enumerate(target_set.attrpath_order):
             if isinstance(item, _AttrpathEntry) and item.binding is leaf_binding:
@@ -491,7 +504,7 @@ def _remove_attrpath_value(target_set: AttributeSet, segments: list[str]) -> Non
 
     for parent_set, binding in reversed(stack[:-1]):
         if isinstance(binding.value, AttributeSet) and not binding.value.values:
-            parent_set.values.remove(binding)
+            _remove_by_identity(parent_set.values, binding)
         else:
             break
 
